@@ -83,12 +83,15 @@ class Prop:
                         'axiom list DESIGN 2.6 (instances only)']
         self.xcheck = dict(points=0, worst_rel=0.0, paths_covered=0, paths_total=0)
         self.notes = []
-        rd = os.path.join(VERIF, 'replays', pid)
+        # VERIF_OUT (tools only: seeded/rerun.py, selftest/run.py) redirects replays and evidence of a run against a scratch copy,
+        # so that such runs neither clobber each other nor the evidence of the run against /repo itself
+        self.out = os.environ.get('VERIF_OUT') or VERIF
+        rd = os.path.join(self.out, 'replays', pid)
         os.makedirs(rd, exist_ok=True)
         for f in os.listdir(rd):            # replay files belong to the run that wrote them
             if f.endswith('.json'):
                 os.unlink(os.path.join(rd, f))
-        os.makedirs(os.path.join(VERIF, 'evidence'), exist_ok=True)
+        os.makedirs(os.path.join(self.out, 'evidence'), exist_ok=True)
         self.verbose = os.environ.get('VERIF_VERBOSE', '1') != '0'
 
     # ------------------------------------------------------------------ helpers
@@ -98,7 +101,8 @@ class Prop:
 
     def replay_path(self, name):
         safe = ''.join(c if c.isalnum() or c in '._-' else '_' for c in name)[:150]
-        return os.path.join('replays', self.pid, safe + '.json')
+        rel = os.path.join('replays', self.pid, safe + '.json')
+        return rel if self.out == VERIF else os.path.join(self.out, rel)
 
     def _known_match(self, layer, name, inp, path=None):
         for kf in self.known:
@@ -126,7 +130,7 @@ class Prop:
         payload = dict(payload)
         payload.setdefault('property', self.pid)
         payload.setdefault('obligation', name)
-        with open(os.path.join(VERIF, rp), 'w') as f:
+        with open(os.path.join(VERIF, rp), 'w') as f:        # (an absolute rp wins in os.path.join)
             json.dump(jsonable(payload), f, indent=1)
         line = 'VIOLATION property=%s replay=%s' % (self.pid, rp) + (' no-failing-input-found' if no_input else '')
         self.lines.append(line)
@@ -399,7 +403,7 @@ class Prop:
         ev = dict(property_id=self.pid, tier=self.tier, seed=self.seed, level=level, coverage=cov,
                   assumptions=self.assumptions, wall_s=round(time.time() - self.t0, 2), violations=self.viol)
         ev = jsonable(ev)
-        p = os.path.join(VERIF, 'evidence', self.pid + '.json')
+        p = os.path.join(self.out, 'evidence', self.pid + '.json')
         with open(p, 'w') as f:
             json.dump(ev, f, indent=1)
         try:
